@@ -13,6 +13,7 @@ import Driver.Unit
 import Driver.Command
 import Driver.Junit
 import Driver.Attempts
+import Driver.System
 namespace Driver
 
 def dispatch (line : String) : String :=
@@ -36,6 +37,7 @@ def dispatch (line : String) : String :=
   | "prio" :: rest => (handlePrio rest).getD "bad-op"
   | "sched" :: rest => (handleSched rest).getD "bad-op"
   | "disp" :: rest => (handleDisp rest).getD "bad-op"
+  | "sys" :: rest => (handleSys rest).getD "bad-op"
   | "settings" :: rest => (handleSettings rest).getD "bad-op"
   | "eval" :: rest => (handleEval rest).getD "bad-op"
   | "rt" :: rest => (handleRt rest).getD "bad-op"
